@@ -5,7 +5,8 @@
      TexExpr.all / contents / children,
      TexNode.all / children / contents / descendants / __descendants / text /
              __iter__ / __getitem__
-   (and the search methods, see C03gen.v).  NOT translated: search_regex,
+   (and the search methods, see C03gen.v), and TexNode.__init__ (what the
+   `TexNode(x)` inside the views builds).  NOT translated: search_regex,
    .string, the setters and the editing methods.
 
    `call n gen_v_cls k M self args None h` interprets the translated body of
@@ -51,6 +52,24 @@ Theorem C04gen_contents_unguarded_refuted :
             expr_contents e = [] /\ run_expr gen_v_cls M_contents None e [] = None.
 Proof. exact gen_contents_unguarded_refuted. Qed.
 Print Assumptions C04gen_contents_unguarded_refuted.
+
+(* ---- TexNode(x): the translated TexNode.__init__ (new_node: its body run
+   with the three instance attributes as slots) builds the wrapper of x with
+   .parent None for a TexExpr and raises AssertionError for a Token / str;
+   this is what the primitive TNewNode of the interpreter does, so the
+   TexNode(..) calls inside the translated views mean the translated
+   constructor *)
+Theorem C04gen_node_init : forall n p e h,
+  new_node n gen_v_cls [VExpr p e] h
+  = if is_texexpr e then ODone (RVal (VNode p e PNone)) h else ODone (RExc XAssertion) h.
+Proof. exact gen_N_init_ok. Qed.
+Print Assumptions C04gen_node_init.
+
+Theorem C04gen_new_node_is_init : forall c0 callf self k n x p e en h,
+  lookup en x = Some (VExpr p e) ->
+  eval c0 callf self k (TNewNode (TVar x)) en h = of_outcome (new_node n gen_v_cls [VExpr p e] h).
+Proof. exact gen_new_node_is_init. Qed.
+Print Assumptions C04gen_new_node_is_init.
 
 (* ---- expression level: one theorem per method *)
 
